@@ -62,7 +62,7 @@ def run(res: C.Result):
     C.prove(res)
     quick = res.tier == "quick"
     nprog = 90 if quick else 1800
-    cases = [progs.gen_program(rng, k) for k in range(nprog)]
+    cases = [progs.add_mid_run_edit(progs.gen_program(rng, k)) for k in range(nprog)]
     # designated inputs of the open findings (they must keep being exercised)
     nk = 4 if quick else 30
     for k in range(nk):
